@@ -236,6 +236,47 @@ def chain(factors, ops):
     return result
 
 
+# ----------------------------------------------------------------------------- entrywise / structural functions
+
+def get(x, idx):
+    for i in idx:
+        x = x[i]
+    return x
+
+
+def build(shp, f, prefix=()):
+    """nested list of the given shape with entry f(index tuple)"""
+    if not shp:
+        return f(prefix)
+    return [build(shp[1:], f, prefix + (i,)) for i in range(shp[0])]
+
+
+def transpose(x):
+    """all axes reversed (a vector or number is its own transpose)"""
+    s = shape(x)
+    if len(s) <= 1:
+        return emap(lambda t: t, x)
+    return build(tuple(reversed(s)), lambda idx: get(x, tuple(reversed(idx))))
+
+
+def conj(x):
+    return emap(lambda t: t.conjugate() if isinstance(t, complex) else t, x)
+
+
+def re(x):
+    return emap(lambda t: t.real if isinstance(t, complex) else t, x)
+
+
+def im(x):
+    return emap(lambda t: t.imag if isinstance(t, complex) else 0, x)
+
+
+def cross(a, b):
+    if shape(a) != (3,) or shape(b) != (3,):
+        raise RefOpen('cross product outside 3-vectors')
+    return [a[1] * b[2] - b[1] * a[2], a[2] * b[0] - b[2] * a[0], a[0] * b[1] - b[0] * a[1]]
+
+
 # ----------------------------------------------------------------------------- comparison
 
 def close(e, o, tol=1e-9):
